@@ -390,13 +390,36 @@ def _iter_reader(text: str, probe: dict | None = None, genref: list | None = Non
     return reader
 
 
+PLAIN_NAMES = False
+NAME_FORMS = ["s_{h}.xsh", "s {h} copy.xsh", "s_{h}_\u00e9\u20ac.xsh", "s_{h}", "sub dir/\u00fc/s_{h}.py", ".s_{h}.xonshrc",
+              "rel:s_{h}.xsh", "link:s_{h}.xsh"]
+
+
 def file_path_for(scratch: str, content: str) -> pathlib.Path:
-    h = hashlib.sha1(content.encode("utf-8", "surrogatepass")).hexdigest()[:16]
-    return pathlib.Path(scratch) / f"s_{h}.xsh"
+    """Where a content is stored.  The *form* of the name is drawn from the content's hash: plain, with blanks, with
+    non-ASCII characters, without extension, in a sub-directory, hidden, given as a path relative to the current
+    directory, or reached through a symbolic link to the directory.  (C12 lets the reported file name differ and
+    nothing else.)"""
+    hx = hashlib.sha1(content.encode("utf-8", "surrogatepass")).hexdigest()
+    form = NAME_FORMS[int(hx[16:18], 16) % len(NAME_FORMS)] if int(hx[18:20], 16) % 4 == 0 else NAME_FORMS[0]
+    if PLAIN_NAMES:
+        form = NAME_FORMS[0]  # an ASCII file-system encoding (real C locale) cannot even create the other names
+    name = form.format(h=hx[:16])
+    if name.startswith("rel:"):
+        return pathlib.Path(os.path.relpath(os.path.join(scratch, name[4:])))
+    if name.startswith("link:"):
+        real = os.path.join(scratch, "real_dir")
+        os.makedirs(real, exist_ok=True)
+        link = os.path.join(scratch, "linked_dir")
+        if not os.path.islink(link):
+            os.symlink(real, link)
+        return pathlib.Path(link) / name[5:]
+    return pathlib.Path(scratch) / name
 
 
 def store(scratch: str, content: str) -> pathlib.Path:
     p = file_path_for(scratch, content)
+    os.makedirs(os.path.dirname(os.path.abspath(p)), exist_ok=True)
     with builtins.open(p, "wb") as f:
         f.write(content.encode("utf-8"))
     return p
